@@ -557,6 +557,14 @@ func (e *Enc) index(x *ssa.Index) {
 			e.assume(rangeFact(e.vals[x], x.Type()), "array element well typed")
 			return
 		}
+		if arr, ok := av.(ArrayV); ok {
+			v := arr.E[len(arr.E)-1]
+			for k := len(arr.E) - 2; k >= 0; k-- {
+				v = iteValue(eq(i, intLit(int64(k))), arr.E[k], v)
+			}
+			e.setVal(x, v)
+			return
+		}
 		e.note("Index on array of composite values")
 		e.setVal(x, e.freshValue(x.Name(), x.Type()))
 	case *types.Basic: // string
